@@ -77,6 +77,8 @@ structure Goroutine where
   nodes : List Node
   /-- source position / description per node (reports only) -/
   sites : List String := []
+  /-- for a `branch` node: the data decisions each successor stands for (scenario replays only) -/
+  conds : List (List String) := []
   /-- started by the constructor (running in the initial state); otherwise started by a `spawn` node -/
   static : Bool := true
   /-- long-lived environment goroutine (collector loop, peers): not required to exit -/
@@ -86,6 +88,8 @@ structure Goroutine where
 structure Chan where
   name : String
   cap : Nat
+  /-- belongs to a long-lived object (node, client) or to the environment, not to this pipeline instance -/
+  env : Bool := false
   deriving Repr, Inhabited
 
 structure Wg where
